@@ -25,3 +25,42 @@ Theorem C13_operated_value_reflects : forall idna_raw c s slot w v u u',
   get s slot = Some u -> setter idna_raw c w u v = Some u' -> get (fst (hstep idna_raw c s (OSet slot w v))) slot = Some u'.
 Proof. exact setter_reflected. Qed.
 Print Assumptions C13_operated_value_reflects.
+
+(* ---------- object-graph model (Model/Heap.v, Proofs/HeapProofs.v): aliasing made explicit ---------- *)
+From Verif Require Import Model.Heap Proofs.HeapProofs.
+
+(* the separation invariant (distinct URLs own distinct Path / SearchParams objects, back-pointers consistent) is
+   preserved by every operation, for any number of live handles *)
+Theorem C13_separation_preserved : forall idna_raw c h op h', Sep h -> h_step idna_raw c h op = Some h' -> Sep h'.
+Proof. exact Sep_preserved. Qed.
+Print Assumptions C13_separation_preserved.
+
+(* an operation changes nothing observable about any URL other than its target *)
+Theorem C13_heap_frame : forall idna_raw c h op h' b, Sep h -> h_step idna_raw c h op = Some h' ->
+  target h op <> Some b -> abs h' b = abs h b.
+Proof. exact frame. Qed.
+Print Assumptions C13_heap_frame.
+
+(* Clone returns a fresh, fully independent copy and leaves the original as it was *)
+Theorem C13_clone_fresh : forall h a u, Sep h -> abs h a = Some u ->
+  exists h' cl, h_clone h a = Some (h', cl) /\ abs h cl = None /\ abs h' cl = Some (Clone u) /\ Sep h' /\
+                abs h' a = Some u /\ (forall b, b <> cl -> abs h' b = abs h b).
+Proof. exact clone_fresh. Qed.
+Print Assumptions C13_clone_fresh.
+
+(* whole histories: the object-graph model refines the value model, preserving the invariant *)
+Theorem C13_heap_refines_values : forall idna_raw c ops h st, Sep h -> R h st ->
+  match h_run idna_raw c h ops with
+  | Some h' => exists st', l1_run idna_raw c h st ops = Some st' /\ R h' st' /\ Sep h'
+  | None => l1_run idna_raw c h st ops = None end.
+Proof. exact run_sim. Qed.
+Print Assumptions C13_heap_refines_values.
+
+(* what the invariant excludes: the defect the code once had (D9, clone's parameters owned by the original) and a
+   clone sharing the path object - each with a concrete history in which an operation on the clone changes the original *)
+Theorem C13_buggy_clone_D9_refuted : Sep h_a /\ h_clone_D9 h_a 0%nat = Some (h_d9, 1%nat) /\
+  h_sp_via Gen.Options.default_cfg app_b2 h_d9 1%nat = Some h_d9' /\
+  q_of h_d9 0%nat = Some (Some [97; 61; 49]) /\ q_of h_d9' 0%nat = Some (Some [97; 61; 49; 38; 98; 61; 50]) /\
+  q_of h_d9' 1%nat = q_of h_d9 1%nat /\ ~ Sep h_d9.
+Proof. exact mutant_D9. Qed.
+Print Assumptions C13_buggy_clone_D9_refuted.
